@@ -227,6 +227,24 @@ fn pat_u64(p: &syn::Pat) -> Option<u64> {
     }
 }
 
+/// the alternatives of a pattern (`a | b | c` in a match arm), a single pattern being its own only alternative
+fn pat_alts(p: &syn::Pat) -> Vec<&syn::Pat> {
+    match p {
+        syn::Pat::Or(o) => o.cases.iter().flat_map(pat_alts).collect(),
+        _ => vec![p],
+    }
+}
+
+/// all ids named by a pattern, None if some alternative is not an integer literal
+fn pat_u64s(p: &syn::Pat) -> Option<Vec<u64>> {
+    pat_alts(p).into_iter().map(pat_u64).collect()
+}
+
+/// all variants named by a pattern, None if some alternative is not a variant pattern
+fn pat_variants(p: &syn::Pat) -> Option<Vec<String>> {
+    pat_alts(p).into_iter().map(pat_variant).collect()
+}
+
 fn last_ident(p: &syn::Path) -> String {
     p.segments.last().map(|s| s.ident.to_string()).unwrap_or_default()
 }
@@ -385,17 +403,21 @@ pub fn interpret(tokens: proc_macro2::TokenStream, enum_name: &str) -> Generated
                             continue;
                         }
                         match name.as_str() {
-                            "get_tag_data_type" => match (pat_u64(&arm.pat), some_inner_ident(&arm.body)) {
-                                (Some(id), Some(t)) => {
-                                    if g.data_type.insert(id, t).is_some() {
-                                        g.problems.push(format!("get_tag_data_type: duplicate arm for id {:#x}", id));
+                            "get_tag_data_type" => match (pat_u64s(&arm.pat), some_inner_ident(&arm.body)) {
+                                (Some(ids), Some(t)) => {
+                                    for id in ids {
+                                        if g.data_type.insert(id, t.clone()).is_some() {
+                                            g.problems.push(format!("get_tag_data_type: duplicate arm for id {:#x}", id));
+                                        }
                                     }
                                 }
                                 _ => g.problems.push("get_tag_data_type: unreadable arm".into()),
                             },
-                            "get_path_by_id" => match (pat_u64(&arm.pat), parse_path_array(&arm.body)) {
-                                (Some(id), Some(p)) => {
-                                    g.paths.insert(id, p);
+                            "get_path_by_id" => match (pat_u64s(&arm.pat), parse_path_array(&arm.body)) {
+                                (Some(ids), Some(p)) => {
+                                    for id in ids {
+                                        g.paths.insert(id, p.clone());
+                                    }
                                 }
                                 _ => g.problems.push("get_path_by_id: unreadable arm".into()),
                             },
@@ -423,9 +445,11 @@ pub fn interpret(tokens: proc_macro2::TokenStream, enum_name: &str) -> Generated
                                     _ => g.problems.push("get_id: unreadable arm".into()),
                                 }
                             }
-                            "as_unsigned_int" | "as_signed_int" | "as_utf8" | "as_binary" | "as_float" | "as_master" => match pat_variant(&arm.pat) {
-                                Some(v) => {
-                                    g.accessors.entry(name.clone()).or_default().insert(v);
+                            "as_unsigned_int" | "as_signed_int" | "as_utf8" | "as_binary" | "as_float" | "as_master" => match pat_variants(&arm.pat) {
+                                Some(vs) => {
+                                    for v in vs {
+                                        g.accessors.entry(name.clone()).or_default().insert(v);
+                                    }
                                 }
                                 None => g.problems.push(format!("{}: unreadable arm", name)),
                             },
@@ -1024,7 +1048,15 @@ fn run(c: &mut Case) {
     }
     let tokens: proc_macro2::TokenStream = a_tokens.parse().expect("tokens re-parse");
     let g = interpret(tokens, &d.name);
-    let (arms, problems) = compare(&d, &g);
+    // The interpreter reads the shape of code today's macro generates (one match per function; literal, or-ed or
+    // variant patterns). A macro that lays its code out differently is not wrong for that: such a declaration is
+    // counted as not interpretable and judged by the compiled stage alone (too many of them and the arms floor makes
+    // the run inconclusive, never violated).
+    let unreadable = !g.problems.is_empty();
+    if unreadable {
+        c.count("declarations_with_unreadable_generated_code");
+    }
+    let (arms, problems) = if unreadable { (0, Vec::new()) } else { compare(&d, &g) };
     c.add("arms_checked", arms);
     if let Some((class, msg)) = problems.first() {
         c.violation(format!("C18/generated-code/{}", class), format!("{} (and {} more)", msg, problems.len() - 1), wit(msg).set("all_problems", J::Arr(problems.iter().take(12).map(|p| J::s(format!("[{}] {}", p.0, p.1))).collect())));
